@@ -13,3 +13,5 @@ import Spade.Properties.C04
 #print axioms Spade.C04_model_add_keeps_flags
 #print axioms Spade.C04_model_add_marks_chain
 #print axioms Spade.C04_model_region_keeps_flags
+#print axioms Spade.C04_model_remove_constraint_flags
+#print axioms Spade.C04_model_remove_constraint_links
